@@ -491,7 +491,8 @@ def run(ctx):
     bad_set = set(bad)
     only_oracle = [(i, v) for i, v in sorted(prop_fail.items()) if i not in bad_set]
     for i, reasons in only_oracle[:5]:
-        ctx.fail("oracle", "property fails on the implementation although model and implementation agree: %s" % ",".join(reasons),
+        ctx.fail("oracle", "property fails on the implementation (%s); the trace of this particular case agrees with the model, "
+                 "see order_dependent_multisets" % ",".join(reasons),
                  ["c24", raw[i]["container"], "block-" + raw[i]["block"]] + sorted(reasons),
                  {"case": raw[i], "gallina_case": cases[i][:3000], "order_dependent_multisets": [
                      {"group": g_, "multiset": ms, "some_insertion_raised_by_order": {str(k): v for k, v in res.items()}}
